@@ -340,10 +340,14 @@ def _set_name(which, local, preload):
     return f
 
 
-def _set_unknown(arg, local):
+def _set_unknown(arg, local, real_cache=False):
     def f(Ghost, SymB, st):
         res = []
         raised = None
+        if real_cache:
+            # the ghost looks names up in the cache the REAL manager class uses (whatever object that is), in a process in
+            # which both real managers have loaded their backends: a name only the OTHER manager knows must still be rejected
+            type.__delattr__(Ghost, "_loaded_backends")
         try:
             with interference(st):
                 Ghost.set_backend(arg, local_threadsafe=local)
@@ -354,9 +358,49 @@ def _set_unknown(arg, local):
         res.append(("rejected selection raises ValueError", isinstance(raised, ValueError), repr(raised)))
         res.append(("rejected selection performs no write", st.log == [] and not st.unknown_writes, f"log={st.log}"))
         res.append(("local[me] unchanged",) + valid(z3.And(z3.Select(st.present, st.me) == z3.Select(st.p0, st.me), z3.Select(st.val, st.me) == z3.Select(st.v0, st.me))))
-        res.append(("nothing registered under the rejected name", arg not in Ghost._loaded_backends if isinstance(arg, (str, int, type(None))) else True, ""))
+        if not real_cache:
+            res.append(("nothing registered under the rejected name", arg not in Ghost._loaded_backends if isinstance(arg, (str, int, type(None))) else True, ""))
         return res
     return f
+
+
+def _state_attributes():
+    """class attributes of the manager that its methods mutate IN PLACE (subscript / attribute stores below `cls.X`), read off
+    the real source: these objects are the manager's state and each concrete manager must own its own"""
+    import ast
+    import inspect
+    import tensorly.backend as B
+    tree = ast.parse(inspect.getsource(B))
+    out = set()
+
+    def root(n):
+        depth = 0
+        while isinstance(n, (ast.Attribute, ast.Subscript)):
+            if isinstance(n, ast.Attribute) and isinstance(n.value, ast.Name) and n.value.id == "cls":
+                return n.attr, depth
+            n = n.value
+            depth += 1
+        return None, 0
+    for n in ast.walk(tree):
+        if isinstance(n, (ast.Attribute, ast.Subscript)) and isinstance(n.ctx, (ast.Store, ast.Del)):
+            a, depth = root(n)
+            if a is not None and depth >= 1:
+                out.add(a)
+    return sorted(out)
+
+
+def ob_independent(Ghost, SymB, st):
+    """'and, independently, the active tensor-algebra backend': the two managers share no state object"""
+    from tensorly.backend import BackendManager
+    from tensorly.tenalg import TenalgBackendManager
+    res = []
+    attrs = _state_attributes()
+    res.append(("state attributes found in the source (in-place mutated class attributes)", set(attrs) >= {"_loaded_backends", "_THREAD_LOCAL_DATA"}, repr(attrs)))
+    for a in attrs:
+        own = a in TenalgBackendManager.__dict__ and a in BackendManager.__dict__
+        res.append((f"each manager owns its {a}", own, f"TenalgBackendManager.__dict__ has {a}: {a in TenalgBackendManager.__dict__}"))
+        res.append((f"{a} of the two managers are distinct objects", getattr(TenalgBackendManager, a) is not getattr(BackendManager, a), ""))
+    return res
 
 
 class _Boom(Exception):
@@ -609,6 +653,25 @@ def scenario_unknown_backend():
 
 
 @_restore
+def scenario_other_managers_name():
+    import tensorly as tl
+    import tensorly.tenalg as tenalg
+    before = (tl.get_backend(), tenalg.get_backend(), _in_thread(lambda: (tl.get_backend(), tenalg.get_backend())))
+    accepted = []
+    for mgr, label, name in ((tl, "tl", "core"), (tl, "tl", "einsum"), (tenalg, "tenalg", "numpy")):
+        for local in (True, False):
+            try:
+                mgr.set_backend(name, local_threadsafe=local)
+                accepted.append(f"{label}.set_backend({name!r}, local_threadsafe={local}) accepted")
+            except ValueError:
+                pass
+            except Exception as e:  # noqa
+                accepted.append(f"{label}.set_backend({name!r}) raised {type(e).__name__}")
+    after = (tl.get_backend(), tenalg.get_backend(), _in_thread(lambda: (tl.get_backend(), tenalg.get_backend())))
+    return not accepted and before == after, f"{accepted} before={before} after={after}"
+
+
+@_restore
 def scenario_local_same_as_default():
     """a thread selects (thread-locally) the backend that happens to be the shared default; a later global change by another
     thread must not change what the first thread uses"""
@@ -674,6 +737,9 @@ def obligations(tier):
             for arg in ("no-such-backend", None, 42, ""):
                 obs.append(GhostOb(which, f"set_backend({arg!r}) rejected [{fl}]", _set_unknown(arg, local), scenario=scenario_unknown_backend,
                                    instance=dict(flavour=fl, argument=repr(arg)), clause="rejected selection leaves every thread unchanged"))
+            for arg in _known_names("tenalg" if which == "backend" else "backend"):
+                obs.append(GhostOb(which, f"set_backend({arg!r}: a name of the other manager, loaded there) rejected [{fl}]", _set_unknown(arg, local, real_cache=True),
+                                   scenario=scenario_other_managers_name, instance=dict(flavour=fl, argument=repr(arg)), clause="rejected selection leaves every thread unchanged; the managers are independent"))
             for exceptional in (False, True):
                 ex = "exceptional exit" if exceptional else "normal exit"
                 obs.append(GhostOb(which, f"backend_context(instance) {ex} [{fl}]", _context(local, exceptional, "instance", which),
@@ -690,6 +756,7 @@ def obligations(tier):
                                    scenario=loc_ctx_scn if (lo and li) else glob_ctx_scn, instance=dict(outer_local=lo, inner_local=li), clause="nested contexts restore in LIFO order"))
         obs.append(GhostOb(which, "dispatch closure looks the backend up at call time", ob_dispatch, scenario=scenario_dispatch_other_thread, clause="dynamic dispatch"))
         obs.append(GhostOb(which, "all public functions are dispatched dynamically", ob_dispatch_installed(which), clause="dynamic dispatch installed"))
+    obs.append(GhostOb("tenalg", "the two managers share no state object", ob_independent, scenario=scenario_other_managers_name, clause="independence of the computational and the tensor-algebra selection"))
     return obs
 
 
